@@ -271,6 +271,10 @@ class FieldsIO:
         field = np.asarray(field)
         assert field.dtype == self.dtype, f"expected {self.dtype} dtype, got {field.dtype}"
         assert field.size == self.nItems, f"expected {self.nItems} values, got {field.size}"
+        # drop an incomplete trailing record (left by an interrupted write), else all later records are misaligned
+        rest = (self.fileSize - self.hSize) % (self.tSize + self.fSize)
+        if rest:
+            os.truncate(self.fileName, self.fileSize - rest)
         with open(self.fileName, "ab") as f:
             np.array(time, dtype=T_DTYPE).tofile(f)
             field.tofile(f)
